@@ -168,6 +168,7 @@ class AffineTransform_to_affine_map:
     target = "snaxc.ir.dart.affine_transform.AffineTransform.to_affine_map"
     shapes = [dict(rows=r, cols=c) for r, c in RC if c <= 4]
     quick = lambda sh: sh["rows"] <= 2 and sh["cols"] <= 2
+    thorough = lambda sh: sh["rows"] * sh["cols"] <= 8  # 3x3 and 3x4 exceed the path budget (30000): not covered
     total = True
 
     def args(sh, sym):
